@@ -205,7 +205,10 @@ def ex(e):
         return operand(e[2], lv) + " " + e[1] + " " + operand(e[3], lv, True)
     if h == "reduce":
         if MINIMAL[0]:
-            return operand(e[1], 3) + " $" + ex(e[2]) + " " + operand(e[3], 3, True)
+            init = ex(e[2])
+            if init[:1] in "*+&|]":      # `$*x` would be read as the reducer token `$*` followed by x
+                init = "(" + init + ")"
+            return operand(e[1], 3) + " $" + init + " " + operand(e[3], 3, True)
         # the function must not be wrapped in parentheses: `$(init) (f)` would read `(init)(f)` as a call
         assert e[3][0] in ("fn", "id"), e
         return paren(e[1]) + " $(" + ex(e[2]) + ") " + ex(e[3])
